@@ -747,6 +747,142 @@ theorem build_roundtrip (lookup) (hs : Sound lookup) (kvs : KV) (hsteps : StepsO
   have := build_inv lookup hs kvs init0 [] init0_inv hsteps
   simpa using finish_den lookup hs _ _ this
 
+
+/-! ### discharging the progress side condition from strict key order -/
+
+def lcp : Key → Key → Nat
+  | a :: as, b :: bs => if a = b then lcp as bs + 1 else 0
+  | _, _ => 0
+
+def lexLt : Key → Key → Bool
+  | [], [] => false
+  | [], _ :: _ => true
+  | _ :: _, [] => false
+  | a :: as, b :: bs => a < b || (a == b && lexLt as bs)
+
+theorem lcp_lt_of_lexLt : ∀ (a b : Key), lexLt a b = true → lcp b a < b.length := by
+  intro a
+  induction a with
+  | nil => intro b h; cases b with
+    | nil => simp [lexLt] at h
+    | cons y ys => simp [lcp]
+  | cons x xs ih =>
+    intro b h
+    cases b with
+    | nil => simp [lexLt] at h
+    | cons y ys =>
+      simp only [lcp]
+      split
+      · rename_i hyx
+        subst hyx
+        simp only [lexLt, Bool.or_eq_true, decide_eq_true_eq, Bool.and_eq_true, beq_iff_eq] at h
+        cases h with
+        | inl h => exact absurd h (by simp [UInt8.lt_irrefl])
+        | inr h => have := ih ys h.2; simp; omega
+      · simp
+
+theorem pathKey_addPrefix (p : Nat) (v : UNode) (rest : List UNode) :
+    pathKey (addPrefix p v :: rest) = pathKey (v :: rest) := by
+  cases h : v.last with
+  | none => simp [pathKey, addPrefix, h]
+  | some bo => simp [pathKey, addPrefix, h]
+
+theorem cps_index : ∀ (key : Key) (stack : List UNode) (out : Nat), WFStack stack →
+    (cps stack key out).1 = lcp key (pathKey stack) := by
+  intro key
+  induction key with
+  | nil => intro stack out _; cases stack with
+    | nil => simp [cps, lcp]
+    | cons u st => cases st <;> simp [cps, lcp]
+  | cons b bs ih =>
+    intro stack out hw
+    match stack, hw with
+    | [], hw => exact absurd hw (by simp [WFStack])
+    | [u], hw =>
+      have hl : u.last = none := by simpa [WFStack] using hw
+      simp [cps, pathKey, hl, lcp]
+    | u :: v :: rest, hw =>
+      obtain ⟨hsome, hw'⟩ := WFStack_cons_cons.mp hw
+      obtain ⟨bo, hbo⟩ := Option.isSome_iff_exists.mp hsome
+      obtain ⟨b', o⟩ := bo
+      simp only [cps, hbo]
+      split
+      · rename_i hb
+        subst hb
+        have hwv : WFStack ((if o - min o out ≠ 0 then addPrefix (o - min o out) v else v) :: rest) := by
+          split
+          · exact WFStack_head_congr (addPrefix_last_isSome _ _) hw'
+          · exact hw'
+        have hpk : pathKey ((if o - min o out ≠ 0 then addPrefix (o - min o out) v else v) :: rest)
+            = pathKey (v :: rest) := by
+          split
+          · exact pathKey_addPrefix _ _ _
+          · rfl
+        rw [ih _ _ hwv, hpk]
+        simp [pathKey, hbo, lcp]
+      · rename_i hb
+        have : ¬ b = b' := fun h => hb h.symm
+        simp [pathKey, hbo, lcp, this]
+
+theorem pathKey_chain : ∀ bs : Key, pathKey (chain bs) = bs := by
+  intro bs
+  induction bs with
+  | nil => simp [chain, pathKey]
+  | cons b bs ih => simp [chain, pathKey, ih]
+
+theorem pathKey_addSuffix (b : UInt8) (bs : Key) (out : Nat) :
+    ∀ stack : List UNode, WFStack stack → pathKey (addSuffix stack (b :: bs) out) = pathKey stack ++ b :: bs
+  | [], h => absurd h (by simp [WFStack])
+  | [u], h => by
+    have hl : u.last = none := by simpa [WFStack] using h
+    simp [addSuffix, pathKey, hl, pathKey_chain]
+  | u :: v :: rest, h => by
+    obtain ⟨_, hw'⟩ := WFStack_cons_cons.mp h
+    simp [addSuffix, pathKey, pathKey_addSuffix b bs out (v :: rest) hw', List.append_assoc]
+
+/-- after an insert the pending path spells the inserted key -/
+theorem insert1_path (lookup) (hs : Sound lookup) (st : Store × List UNode) (kv : Key × Nat)
+    (hac : Acyc st.1) (hwf : WFStack st.2)
+    (hok : StackOK st.1.length st.2) (hprog : (cps st.2 kv.1 kv.2).1 < kv.1.length) :
+    pathKey (insert1 lookup st kv).2 = kv.1 := by
+  obtain ⟨c1, c2, c3, c4⟩ := cps_facts st.1.length kv.1 st.2 kv.2 hwf hok
+  obtain ⟨p1, _⟩ := compileFrom_path lookup st.1 (cps st.2 kv.1 kv.2).2.2 (cps st.2 kv.1 kv.2).1 c1
+  obtain ⟨_, d2, _⟩ := compileFrom_den lookup hs (cps st.2 kv.1 kv.2).2.2 (cps st.2 kv.1 kv.2).1 st.1 hac c1 c2
+  obtain ⟨b, bs, hdrop⟩ : ∃ b bs, kv.1.drop (cps st.2 kv.1 kv.2).1 = b :: bs := by
+    cases h : kv.1.drop (cps st.2 kv.1 kv.2).1 with
+    | nil => have := congrArg List.length h; simp at this; omega
+    | cons b bs => exact ⟨b, bs, rfl⟩
+  show pathKey (addSuffix _ (kv.1.drop (cps st.2 kv.1 kv.2).1) _) = kv.1
+  rw [hdrop, pathKey_addSuffix b bs _ _ d2, p1, c3, ← hdrop, List.take_append_drop]
+
+/-- strictly increasing, all keys non-empty (the empty key is handled by `initE`) -/
+def Sorted : Key → KV → Prop
+  | _, [] => True
+  | prev, kv :: rest => lexLt prev kv.1 = true ∧ Sorted kv.1 rest
+
+theorem stepsOK_of_sorted (lookup) (hs : Sound lookup) : ∀ (kvs : KV) (st : Store × List UNode) (acc : KV),
+    BInv st acc → Sorted (pathKey st.2) kvs → StepsOK lookup st kvs := by
+  intro kvs
+  induction kvs with
+  | nil => intro _ _ _ _; trivial
+  | cons kv rest ih =>
+    intro st acc hinv hsorted
+    obtain ⟨hlt, hrest⟩ := hsorted
+    have hprog : (cps st.2 kv.1 kv.2).1 < kv.1.length := by
+      rw [cps_index kv.1 st.2 kv.2 hinv.2.1]
+      exact lcp_lt_of_lexLt _ _ hlt
+    refine ⟨hprog, ih _ _ (insert1_inv lookup hs st acc kv hinv hprog) ?_⟩
+    rw [insert1_path lookup hs st kv hinv.1 hinv.2.1 hinv.2.2.1 hprog]
+    exact hrest
+
+/-- END-TO-END (abstract store level): strictly increasing non-empty keys, any sound cache -/
+theorem build_roundtrip_sorted (lookup) (hs : Sound lookup) (kvs : KV) (h : Sorted [] kvs) :
+    let r := finish lookup (kvs.foldl (insert1 lookup) init0)
+    look (denAll r.1) r.2 = kvs :=
+  build_roundtrip lookup hs kvs (stepsOK_of_sorted lookup hs kvs init0 [] init0_inv (by simpa [init0, pathKey] using h))
+
+#print axioms build_roundtrip_sorted
+
 #print axioms build_roundtrip
 
 -- non-vacuity / sanity: run it
@@ -756,3 +892,5 @@ def fullCache : Store → Node → Option Nat := fun s n =>
 def demo : KV := [([1], 5), ([1,2], 3), ([1,3], 9), ([2,3], 1)]
 #eval (let r := finish fullCache (demo.foldl (insert1 fullCache) init0); (look (denAll r.1) r.2, r.1.length))
 #eval (let r := finish noCache (demo.foldl (insert1 noCache) init0); (look (denAll r.1) r.2, r.1.length))
+-- the hypothesis of the end-to-end theorem is satisfiable
+example : Sorted [] demo := by simp [Sorted, demo, lexLt]
